@@ -434,7 +434,7 @@ reach any point of the waveform: early pilot, arbitrary pulse, end of first bloc
 (up to 1500 calls of 1..16 T in five schedule families)} on tapes of 1-3 blocks (1, 2-5 and 129-139 bytes, occasionally flag 0x00), always \
 ending in play + advance (one history in five is directed: a stop inside a block, play, then a stop in the pause after the block or a second play while running); every EAR edge time and the stopped state compared exactly with the Lean model and with the cassette-deck spec. \
 System level: the real ROM loading blocks after scripted Emulator::play_tape/stop_tape/rewind_tape (stop;play, stop;stop;play;play, rewind \
-while playing, stop;rewind;play), compared with LD-BYTES on the block sequence a deck delivers. distinct/non-trivial = distinct (sequence of \
+while playing, stop;rewind;play), compared with LD-BYTES on the block sequence a deck delivers; plus the frozen level as a program sees it (deck stopped anywhere in the waveform, OUTs to the speaker/MIC bits, bit 6 of the ULA port read back). distinct/non-trivial = distinct (sequence of \
 deck commands, deck stopped at the end) of histories in which at least one edge was produced after the first stop/rewind"
         .into();
     let mut model = Model::spawn(&o.model, "C12");
@@ -444,7 +444,10 @@ deck commands, deck stopped at the end) of histories in which at least one edge 
 
     if let Some(text) = &o.replay {
         rep.sample(J::s(c11::truncate(text, 400)));
-        if text.starts_with("system") {
+        if text.starts_with("earport") {
+            let t: Vec<&str> = text.split_whitespace().collect();
+            ear_frozen_at_port(o, &mut rep, Some((t.get(1) == Some(&"128"), t.get(2).and_then(|x| x.parse().ok()).unwrap_or(5000))));
+        } else if text.starts_with("system") {
             // "system expect=<hex> tape=<hex> ; ops"
             let c = c11::parse_sys(text);
             let expect = text
@@ -528,9 +531,72 @@ deck commands, deck stopped at the end) of histories in which at least one edge 
             report_sys(&mut rep, &c, &expect, d, name);
         }
     }
+    // 3. the frozen level as the program sees it: with the deck stopped anywhere in the waveform, bit 6 of the
+    // ULA port keeps the level whatever the program writes to the speaker/MIC bits meanwhile
+    ear_frozen_at_port(o, &mut rep, None);
     rep.extra.push(("histories".into(), J::I(n as i64)));
     rep.extra.push(("model_requests".into(), J::I((model.requests + m10.requests) as i64)));
     rep
+}
+
+fn ear_frozen_at_port(o: &Opts, rep: &mut Report, only: Option<(bool, usize)>) {
+    use crate::host::*;
+    let mut rng = Rng::new(o.seed ^ 0xEA12);
+    for k in 0..o.n(24, 400) as usize {
+        let m128 = k % 2 == 1;
+        // stop after this many T-states of play: pilot (either level), sync, data, pause
+        let run_t: usize = match only {
+            Some((_, t)) => t,
+            None => match k % 4 {
+                0 => 2168 * (1 + rng.below(40) as usize) + rng.below(2168) as usize,
+                1 => 2168 * (2 + rng.below(40) as usize) + 1084,
+                2 => 2168 * 3223 + 1402 + rng.below(20000) as usize,
+                _ => rng.below(8_000_000) as usize,
+            },
+        };
+        if let Some((m, _)) = only {
+            if m != m128 {
+                continue;
+            }
+        }
+        let mut e = emu(&Cfg::new(m128));
+        let mut blk = vec![0xFFu8, 0x55, 0xAA, 0x0F];
+        let x = blk.iter().fold(0u8, |a, b| a ^ b);
+        blk.push(x);
+        let mut tap = vec![blk.len() as u8, 0];
+        tap.extend_from_slice(&blk);
+        let _ = e.load_tape(rustzx_core::host::Tape::Tap(VAsset::new(tap)));
+        e.play_tape();
+        let mut left = run_t;
+        while left > 0 {
+            let n = left.min(13);
+            e.verif_wait(n);
+            left -= n;
+        }
+        e.stop_tape();
+        let level = e.verif_read_io(0x7FFE) & 0x40;
+        let mut seen = vec![];
+        for v in [0x10u8, 0x00, 0x18, 0x08, 0x1F, 0x00] {
+            e.verif_write_io(0x00FE, v);
+            e.verif_wait(1000);
+            seen.push(e.verif_read_io(0x7FFE) & 0x40);
+        }
+        rep.eval();
+        rep.class(format!("ear frozen at port m128={} level={} phase={}", m128, level >> 6, k % 4));
+        if seen.iter().any(|x| *x != level) {
+            rep.violation(Violation {
+                kind: Kind::SpecViolated,
+                key: "C12/port/ear-frozen".into(),
+                what: format!("{}: deck stopped after {} T of play with EAR bit {}; after OUTs of 10,00,18,08,1F,00 to port 0xFE bit 6 of port 0x7FFE reads {:?} — the level is frozen while the deck is stopped",
+                    if m128 { "128K" } else { "48K" }, run_t, level >> 6, seen.iter().map(|x| x >> 6).collect::<Vec<_>>()),
+                correspondence: "corr.C12.rom (the EAR input of the ULA port is the deck's level)".into(),
+                case: J::obj(vec![("text", J::s(format!("earport {} {}", if m128 { 128 } else { 48 }, run_t)))]),
+                implementation: format!("{:?}", seen),
+                expected: format!("{} every time", level),
+            });
+            return;
+        }
+    }
 }
 
 fn report_sys(rep: &mut Report, c: &SysCase, expect: &[u8], d: c11::Dis, name: &str) {
